@@ -1,7 +1,7 @@
 (* C02 -- lossless mode reproduces every sample exactly.
    Property theorems only: statement + exact + Print Assumptions. *)
 From Coq Require Import List ZArith.
-From LJT Require Import model.Huff model.Lossless proofs.LosslessProofs proofs.LosslessScanProofs proofs.LosslessBitsProofs proofs.LosslessHuffProofs gen.GenLossless proofs.LosslessGenProofs.
+From LJT Require Import model.Huff model.Lossless proofs.LosslessProofs proofs.LosslessScanProofs proofs.LosslessBitsProofs proofs.LosslessHuffProofs proofs.LosslessSuspendProofs gen.GenLossless proofs.LosslessGenProofs.
 Import ListNotations.
 Local Open Scope Z_scope.
 
@@ -107,6 +107,25 @@ Theorem C02_real_huffman_bitstream :
 Proof. exact real_huffman_mcu_row. Qed.
 Print Assumptions C02_real_huffman_bitstream.
 
+(* I/O suspension in the middle of an MCU row (suspending jpeg_source_mgr):
+   decode_mcus commits the bit-reader state after every completed MCU and returns
+   the number completed; whatever the sequence of suspended calls (each seeing
+   no more input than the final one), resuming from (MCU_ctr, saved state)
+   yields exactly the MCUs and the final state of the unsuspended call *)
+Theorem C02_suspend_resume : forall (S : Type) (dfull : S -> option (list Z * S)) calls,
+  Forall (fun d => forall st r, d st = Some r -> dfull st = Some r) calls ->
+  forall n st, resume_calls S calls dfull n st = decode_mcus_susp S dfull n st.
+Proof. exact resume_calls_correct. Qed.
+Print Assumptions C02_suspend_resume.
+
+(* tie: the current jdlhuff.c / jddiffct.c have that structure (BITREAD_SAVE_STATE
+   is a statement of the per-MCU loop body, both suspension exits return mcu_num,
+   the controller advances MCU_ctr by the returned count) *)
+Theorem C02_suspension_source_facts :
+  gen_bitread_save_per_mcu = true /\ gen_suspend_returns_mcu_num = true /\ gen_resume_at_mcu_ctr = true.
+Proof. exact gen_suspension_facts. Qed.
+Print Assumptions C02_suspension_source_facts.
+
 (* tie: the predictor macros, the wiring of the fourteen [un]differencing
    functions, the first-row switch, the "& 0xFFFF" masks and the constants of the
    category coder, as translated from the CURRENT sources (gen/GenLossless.v),
@@ -158,6 +177,18 @@ Example C02_ex_real_table :
   (exists ct dt, make_c_derived ex_bits ex_vals 16 = Some ct /\ make_d_derived ex_bits ex_vals true 16 = Some dt /\
      forallb (fun s => match encode_sym ct s with Some _ => true | None => false end) ex_vals = true).
 Proof. exact ex_table_ok. Qed.
+Example C02_ex_suspend :
+  decode_mcus_susp _ (toy_dec 4 2) 4 [10; 20; 30; 40] = ([[10]; [20]], [30; 40]) /\
+  resume_calls _ [toy_dec 4 2] (toy_dec 4 4) 4 [10; 20; 30; 40] = ([[10]; [20]; [30]; [40]], []).
+Proof. exact toy_resume. Qed.
+Example C02_ex_suspend_hyp : forall st r, toy_dec 4 2 st = Some r -> toy_dec 4 4 st = Some r.
+Proof. exact toy_le. Qed.
+(* the state written back once per call (seeded change C02-3) does NOT have the property *)
+Example C02_ex_hoisted_save_refuted :
+  let (ms1, s1) := decode_mcus_hoisted _ (toy_dec 4 2) 4 [10; 20; 30; 40] in
+  let (ms2, s2) := decode_mcus_hoisted _ (toy_dec 4 4) (4 - length ms1) s1 in
+  ms1 ++ ms2 = [[10]; [20]; [10]; [20]] /\ ms1 ++ ms2 <> fst (decode_mcus_susp _ (toy_dec 4 4) 4 [10; 20; 30; 40]).
+Proof. exact hoisted_save_refuted. Qed.
 Example C02_ex_prefix_code : forall tbl s rest, 0 <= s <= 16 ->
   fixed_dec tbl (fixed_code tbl s ++ rest) = Some (s, rest).
 Proof. exact fixed_code_ok. Qed.
